@@ -1,5 +1,7 @@
 """C07 — a rejected handshake message never wedges the handshake (spec/Handshake.tla; shared code in C05.py)."""
-import json, os
+import json, os, random, re
+from tools import tlaval
+from tools.check import MachineryError
 from tools.props import C05 as hs
 
 RULE = ("MC: TLC checks C07_RejectClean on Handshake.tla (Impl=\"spec\": where a failed ReadMessage touched live Noise state the Machine "
@@ -18,7 +20,77 @@ ASSUMPTIONS = [
 ]
 
 
+# ---------------------------------------------------------------------------------------------- manager level
+MGR_OPS = ["id", "short", "hdr", "in_e", "after_e", "in_s", "after_s", "in_p", "flip_s", "flip_p", "idx", "sub_e", "bad_e", "splice_e", "splice_p"]
+MGR_CFG = ("SPECIFICATION RSpec\nCONSTANTS\n  HI = {\"I1\", \"I2\"}\n  HR = {\"R1\", \"R2\"}\n  AI = {}\n  AR = {}\n  AdvIds = {\"M\"}\n"
+           "  VerCfgs = {1}\n  Ops = %s\n  PKinds = {\"full\"}\n  SKinds = {\"own\"}\n  Misuse = FALSE\n  Scns = {\"all\"}\n  Impl = \"spec\"\n"
+           "  Budget = 0\nINVARIANTS TypeOK VecOK ScriptOK C07_RejectClean\nCHECK_DEADLOCK FALSE\n" % hs._set(MGR_OPS))
+_vec = re.compile(r'/\\ vec = (\[.*?\])\n(?:/\\|\n|$)', re.S)
+
+
+def mgr_vectors(ctx):
+    """HsReject.tla in vector mode: S x R x source with the outcomes the statement allows (only `vec` is read from the dump)."""
+    dump = os.path.join(ctx.spec_dir(), 'vec_hsreject')
+    ctx.tlc('HsReject', 'MC_HsReject_run.cfg', args=['-dump', dump], cfgtext=MGR_CFG, timeout=900)
+    path = dump + '.dump' if os.path.exists(dump + '.dump') else dump
+    with open(path) as f:
+        txt = f.read()
+    os.remove(path)
+    vecs = [tlaval.parse(m.group(1)) for m in _vec.finditer(txt)]
+    vecs = [v for v in vecs if v['sit']]
+    if not vecs:
+        raise MachineryError('HsReject.tla produced no vectors')
+    keyf = lambda v: (v['sit'], v['gvia'], v['path'], v['base'], v['hdr'], v['op'], v['arg'])
+    vecs.sort(key=keyf)         # TLC's dump order is not deterministic
+    return vecs
+
+
+def mgr_sample(vecs, rnd, per_class, extra_pending, drops):
+    """Per (situation, genuine path, source of R): one vector of every class (route, base, header treatment, Machine
+    outcomes) -- `drops` of those the manager never hands to a Machine -- plus extra_pending more that reach the pending Machine."""
+    combos = {}
+    for v in vecs:
+        combos.setdefault((v['sit'], v['gvia'], v['path']), []).append(v)
+    out = []
+    for ck in sorted(combos):
+        classes = {}
+        for v in combos[ck]:
+            classes.setdefault((v['route'], v['base'], v['hdr'], tuple(v['kinds'])), []).append(v)
+        chosen, dropped = [], []
+        for k in sorted(classes):
+            pick = rnd.sample(classes[k], min(per_class, len(classes[k])))
+            (dropped if k[0] == 'drop' else chosen).extend(pick)
+        chosen += rnd.sample(dropped, min(drops, len(dropped)))
+        ids = {id(v) for v in chosen}
+        rest = [v for v in combos[ck] if v['route'] == 'pending' and id(v) not in ids]
+        chosen += rnd.sample(rest, min(extra_pending, len(rest)))
+        out += chosen
+    return out
+
+
+def run_mgr(ctx):
+    vecs = mgr_vectors(ctx)
+    rnd = random.Random(ctx.seed * 7919 + 7)
+    if ctx.quick:
+        pick = mgr_sample(vecs, rnd, 1, 2, 2)
+    else:
+        pick = mgr_sample(vecs, rnd, 3, 60, 12)
+    if os.environ.get('VERIF_C07_MGR_MAX'):
+        pick = rnd.sample(pick, min(len(pick), int(os.environ['VERIF_C07_MGR_MAX'])))
+    pick.sort(key=lambda v: (v['sit'], v['gvia']))
+    with open(os.path.join(ctx.scratch, 'c07_vectors.ndjson'), 'w') as f:
+        for v in pick:
+            f.write(json.dumps(v, separators=(',', ':')) + '\n')
+    ctx.extra['manager_vectors'] = {'specified': len(vecs), 'run': len(pick)}
+    res = ctx.gotest('e2e', 'TestVerif_C07Mgr', tags='verif e2e_testing', also=('net',), timeout=900 if ctx.quick else 3000)
+    hs.finish(ctx, res, 'manager')
+    return res
+
+
 def run(ctx):
+    if os.environ.get('VERIF_C07_STAGE') == 'mgr':      # development only
+        run_mgr(ctx)
+        return
     base = dict(HI=("I1",), HR=("R1",), AR=("XR",), adv=("M",), ops=hs.ALL_OPS, pk=("full", "empty"), sk=("own", "bad"), misuse=True)
     vcs = (1,) if ctx.quick else (1, 2, 3)
     graphs = [hs.build_graph(ctx, 'c07', hs.cfg(vcs=vcs, **base))]
